@@ -827,7 +827,7 @@ def _fix_arr_shown(case):
 class C12(Property):
     id = "C12"
     title = "a rendered form, submitted unchanged, posts the element's own flat pairs"
-    proof_module = "Proofs.C12FormExamples"
+    proof_module = "Proofs.C12Rejected"
     theorems = [
         "Flatland.C12.Proofs.flatName_spec",
         "Flatland.C12.Proofs.flatName_child",
@@ -879,6 +879,15 @@ class C12(Property):
         "Flatland.C12.Proofs.exForm_ok",
         "Flatland.C12.Proofs.exForm_posts",
         "Flatland.C12.Proofs.exForm_posts_generator",
+        # after a rejected generator call (Proofs/C12Rejected.lean)
+        "Flatland.C12.Proofs.failed_settings_call_keeps_generator",
+        "Flatland.C12.Proofs.rejected_call_raises",
+        "Flatland.C12.Proofs.rejected_call_preserves_rendering",
+        "Flatland.C12.Proofs.failed_call_preserves_rendering",
+        "Flatland.C12.Proofs.rejected_prehistory_keeps_generator",
+        "Flatland.C12.Proofs.rejected_prehistory_form_roundtrip",
+        "Flatland.C12.Proofs.exRejected_rejected",
+        "Flatland.C12.Proofs.exForm_posts_after_rejected",
     ]
     generated_obligations = []
     level_text = "proof"
@@ -920,6 +929,20 @@ class C12(Property):
                   "TablesOK (discharged for Tables.current); (4) boolsCanonical (every Boolean's text is its true value or '') "
                   "only for the statement that the unposted pairs of flatten() have value ''.  The harness re-states (1)+(2)+(4) "
                   "on the case (form_ok) and tags every form-mode case formOk / formOk=false:<reason>.  "
+                  "AFTER A REJECTED CALL (failure / recovery paths): a case may make generator calls, each caught, on the "
+                  "same generator before the first rendering.  THEOREMS (Proofs/C12Rejected.lean, on the C19 model of "
+                  "Context / Generator that the runner uses for those calls): failed_settings_call_keeps_generator -- ANY begin / "
+                  "end / set / []= / update that raises leaves the generator as it was; rejected_call_preserves_rendering -- "
+                  "a call with an unknown option in any position (or an unbalanced end()) followed by a rendering through any "
+                  "Tag method = the rendering without it (from C19's *_unknown_rejected); rejected_prehistory_form_roundtrip -- "
+                  "the whole-form round trip holds on the generator after any pre-history of rejected calls.  ORACLE: keeps its "
+                  "own settings stack (SettingsRef, nothing read from the library), decides which calls are rejected, checks each "
+                  "call's outcome (pre-history-outcome) and then states the property's own clauses exactly as if the rejected "
+                  "calls had not been made; when an ACCEPTED call switched auto_name / auto_value off per the reference the "
+                  "per-control and form clauses are not asked (tag pre-live=False).  FAILED TAG CALLS in the pre-history (non-text "
+                  "attribute value, a bind that is not an element, open() of a void element; on a fresh Tag, on the Tag object a "
+                  "later rendering holds, through open() which leaves the Tag on the generator's open-tag stack): "
+                  "correspondence + oracle only -- the model renders statelessly in the Tag object (Gen.renderHow).  "
                   "ORACLE/CORRESPONDENCE ONLY: label for = id for textarea/button controls; that "
                   "from_flat of the posted pairs rebuilds the element (C01's function on the real code)")
     technique = ("symbolic evaluation of the transform pipeline under Enabled/Disabled contexts + frame lemmas; browser "
@@ -942,6 +965,11 @@ class C12(Property):
         "<textarea>; option text stripped and collapsed on ASCII whitespace).  NOT modelled: CR/CRLF -> LF normalisation of the "
         "input stream, newline stripping in text inputs, CRLF normalisation on submission, NUL -> U+FFFD: element texts "
         "containing CR/LF/NUL in text-like inputs are 'posted unchanged' relative to that",
+        "pre-history: calls come BEFORE the first rendering only (not between renderings); update() takes one positional "
+        "mapping and keywords, modelled as the concatenated pair list (`source = list(to_pairs(m)); source.extend(kw.items())`); "
+        "a bind that is not an element is a str and the call forces auto_name='on', so that the first transform raises "
+        "(the model takes that AttributeError as given: `PreOp.badBind`); a non-text attribute value is `True`; option values "
+        "stored by accepted calls are bools / Maybe / text (an int is only offered to set(), which rejects it)",
         "leaf kinds: String, Integer, Boolean, Array of String, MultiValue of String, JoinedString (DateYYYYMMDD, Enum, SparseDict "
         "of C01's trees are not generated here: their leaves are scalars of the kinds above as far as the transforms can tell)",
     ]
@@ -950,7 +978,14 @@ class C12(Property):
             "button, checkbox (with/without literal, Boolean/Array binds), radio groups, select/option (value= or contents=), "
             "password/file/image/reset/button types, labels paired with a control; decoy literals differing from the text only in "
             "case / Unicode normal form / padding; form mode (35%, mostly >= 3 leaves, 0 / 1 / 2+ submitters) renders one "
-            "control (group) per leaf and feeds the posted pairs to from_flat.  non-trivial = some control posts a pair or is deliberately unchecked; distinct = distinct "
+            "control (group) per leaf and feeds the posted pairs to from_flat.  PRE-HISTORY (40% of the cases, 1-5 calls on the same "
+            "generator before the first rendering, each caught): 50% a settings call with an unknown option among 0-3 valid ones "
+            "(update x3 / begin / set / []=; unknown key first / middle / last / only; update with a positional mapping and "
+            "keywords, the unknown key in either part; the valid pairs mostly switch auto_name / auto_value off -- what would "
+            "break the form if applied) or set() with an int option value; 8% end(); 20% a failing tag call (non-text attribute "
+            "value / non-element bind / open() of a void element; call / open / open+close; fresh Tag or the Tag a later "
+            "rendering holds); 22% an accepted begin / end / set / update / []=.  Tags: pre=<n>, pre-rejected=<n>, "
+            "pre-rej=<kind>:<call>:<position>, pre-tag=<tag>:<how>:<fresh|held>, pre-ok=<call>, pre-live, pre-then-form.  non-trivial = some control posts a pair or is deliberately unchecked; distinct = distinct "
             "canonical case JSON")
     quick_n = 40000
     case_timeout = 60      # the machine is shared: a stalled worker must not look like a hang of the library
@@ -1079,6 +1114,54 @@ class C12(Property):
             rd([8], "input", [["type", S("hidden")]], "value")]
         cases.append({"markup": "xhtml", "settings": [], "form_mode": True, "tree": ex_tree,
                       "renders": [dict(r, form=True) for r in ex_renders]})
+        # ---- renderings that FOLLOW a rejected generator call (seeded mutation C12-context-update-kwargs-after-precheck:
+        # update() applied the keyword pairs in front of the unknown one before raising)
+        # the Lean example `exRejected` (Proofs/C12Rejected.lean) in front of the example form: `exForm_posts_after_rejected`
+        ex_pre = [{"op": "update", "pos": None, "settings": [["auto_name", B(False)], ["no_such", I(1)]]},
+                  {"op": "begin", "settings": [["no_such", I(1)], ["auto_value", B(False)]]},
+                  {"op": "set", "settings": [["auto_value", S("off")], ["auto_nmae", B(True)]]},
+                  {"op": "setitem", "key": "no_such", "value": B(False)},
+                  {"op": "end"}]
+        cases.append({"markup": "xhtml", "settings": [], "form_mode": True, "tree": ex_tree, "pre": ex_pre,
+                      "renders": [dict(r, form=True) for r in ex_renders]})
+        # the mutation's demo: text input, textarea, three checkboxes bound to an Array, after two rejected update()s
+        demo_tree = {"t": "dict", "name": "user", "fields": [
+            {"t": "leaf", "name": "email", "py": "str", "u": "a&b@example.com"},
+            {"t": "leaf", "name": "bio", "py": "str", "u": "x < y"},
+            {"t": "array", "flavour": "array", "name": "roles", "strip": True, "members": ["1", "3"]}]}
+        demo_renders = [rd([0], "input", [["type", S("text")]], "value"), rd([1], "textarea", [], "value"),
+                        chk([2], "checkbox", "1"), chk([2], "checkbox", "3")]
+        cases.append({"markup": "html", "settings": [], "form_mode": True, "tree": demo_tree,
+                      "pre": [{"op": "update", "pos": None, "settings": [["auto_value", B(False)], ["auto_nmae", B(True)]]},
+                              {"op": "update", "pos": None, "settings": [["auto_name", B(False)], ["domid_fromat", S("x%s")]]},
+                              {"op": "begin", "settings": [["auto_name", B(False)], ["auto_vlaue", B(False)]]}],
+                      "renders": [dict(r, form=True) for r in demo_renders]})
+        # minimised replays of the drill: the valid pair in the positional mapping / in the keywords, the unknown key after it
+        cases.append(dict(one("a b", [rd([0], "input", [["type", S("search")]], "value")]),
+                          pre=[{"op": "update", "pos": None, "settings": [["auto_name", S("NIL")], ["name", S("False")]]}]))
+        cases.append(dict(one("", [rd([0], "textarea", [], "value")]),
+                          pre=[{"op": "update", "pos": [["auto_name", S("False")]], "settings": [["domid_fromat", B(False)]]}]))
+        cases.append(dict(one("x", [rd([0], "input", [["type", S("radio")], ["value", S("x")]], "check", lit="x")]),
+                          pre=[{"op": "update", "pos": [["auto_domid", B(True)]],
+                                "settings": [["auto_for", B(True)], ["auto_value", S("off")], ["", B(True)], ["auto_name", B(True)]]}]))
+        # set() rejecting an option value after a valid pair; unbalanced end(); accepted begin(auto_name off) ... end()
+        cases.append(dict(one("x", [rd([0], "button", [], "value")]),
+                          pre=[{"op": "set", "settings": [["auto_value", B(False)], ["auto_name", I(7)]]}, {"op": "end"},
+                               {"op": "begin", "settings": [["auto_name", B(False)]]}, {"op": "end"}, {"op": "end"}]))
+        # seeded mutation C11-tag-open-keeps-stale-contents: open() raises midway (non-text attribute value) AFTER the
+        # transforms stored the body; the Tag stays on the generator's open-tag stack; the next (empty) field renders through it
+        notes = {"t": "dict", "name": "post", "fields": [{"t": "leaf", "name": "notes", "py": "str", "u": "</textarea> & <b>"},
+                                                        {"t": "leaf", "name": "bio", "py": "str", "u": ""}]}
+        for how, handle in (("open", None), ("call", 0), ("openclose", 0)):
+            cases.append({"markup": "xhtml", "settings": [], "form_mode": False, "tree": notes,
+                          "pre": [{"op": "tag", "sel": [0], "tag": "textarea", "kwargs": [["rows", B(True)]], "how": how,
+                                   "handle": handle, "badbind": False},
+                                  {"op": "tag", "sel": None, "tag": "textarea", "kwargs": [["auto_name", S("on")]], "how": how,
+                                   "handle": handle, "badbind": True},
+                                  {"op": "tag", "sel": [0], "tag": "input", "kwargs": [], "how": "open", "handle": None, "badbind": False}],
+                          "renders": [dict(rd([1], "textarea", [], "value"), handle=handle),
+                                      dict(rd([1], "textarea", [], "value"), handle=handle, how="openclose"),
+                                      rd([0], "textarea", [], "value")]})
         return [_fix_arr_shown(c) for c in cases]
 
     def generate(self, rng, n, tier):
